@@ -48,7 +48,7 @@ CHECKS.update({
  "C19": ("other", "5.19", TECH_A + "; front-end copies extracted via rustc's pretty-printer and compiled against the library",
    "Partial. Each of the 7 copies of the shipped front-end: no panic of its own code on arbitrary bytes (loop invariants such as index <= len proven; content-dependent sites audited), the library is called on sub-slices of the input, the remainder is a sub-slice of the input, exponent saturation only when the accumulator leaves the i32 range. Grammar completeness and the value are NOT decided."),
  "C06": ("other", "5.6", TECH_A + "; exact midpoint-digit computation",
-   "Partial. MAX_DIGITS >= longest exact midpoint expansion (computed exactly), capacity formula, and the truncation typestate of the 19-digit stage: at every exit of parse_number either many_digits is set or both iterators are exhausted, and at every exit of slow::parse_mantissa either both are exhausted or the digit count has reached max_digits; the flag is honoured by the middle stage (lemire: a truncated significand is accepted only after w and w+1 were both evaluated and compared; bellerophon: the error estimate passed to error_is_accurate is at least one significand unit). Rounding of the truncated value is NOT decided."),
+   "Partial. MAX_DIGITS >= longest exact midpoint expansion (computed exactly), capacity formula, and the truncation typestate of the 19-digit stage: at every exit of parse_number either many_digits is set or both iterators are exhausted, and at every exit of slow::parse_mantissa either both are exhausted or the digit count has reached max_digits; the sticky digit of the big-integer stage is appended only after a provably non-zero dropped byte was read; the flag is honoured by the middle stage (lemire: a truncated significand is accepted only after w and w+1 were both evaluated and compared; bellerophon: the error estimate passed to error_is_accurate is at least one significand unit). Rounding of the truncated value is NOT decided."),
  "C18": ("other", "5.18", TECH_A + "; must-pass-through rule on the monomorphic CFG",
    "Partial. (1) every path through round / round_nearest_tie_even consults the rounding callback; (2) post-condition of round for every significand with its top bit set and every exponent whose subnormal shift is <= 64: 0 <= exp <= INFINITE_POWER, mant <= HIDDEN_BIT_MASK, exp = INFINITE_POWER => mant = 0 (fields pack without overlap, never NaN), all shifts and mask widths in range; (3) constants; (4) bit-mask helpers for all widths 0..=64 by interval inclusion on the classes {0},{1},[2,62],{63},{64}; (5) exact results on the boundary classes of round (shift-64 subnormals, largest subnormal -> smallest normal, carry into the next binade, overflow to infinity) for the generic nearest-even and the truncating instances. The nearest-even decision on the remaining inputs is NOT decided."),
  "C12": ("other", "5.12", TECH_E + "; " + TECH_A,
